@@ -3,12 +3,12 @@ ID = "C01"
 LEVEL = "model_checking"
 TECHNIQUE = "CBMC bounded symbolic execution of the real timer code: inductive step obligations from symbolic pre-states under a representation invariant (min-heap, expiry, persist re-arm, deadline computation, common-timeout queue) plus concrete-shape runs through event_base_loop on a constructed base with a virtual clock"
 UNITS = ["event.c", "minheap-internal.h", "evmap.c"]
-FUNCTIONS = []
-BOUNDS = ""
-OUT = ""
-TEXT = ""
-NOTE = ""
-ASSUMPTIONS = []
+FUNCTIONS = ['min_heap_push_', 'min_heap_pop_', 'min_heap_erase_', 'min_heap_adjust_', 'min_heap_shift_up_', 'min_heap_shift_up_unconditional_', 'min_heap_shift_down_', 'min_heap_top_', 'min_heap_elt_is_top_', 'event_add', 'event_add_nolock_', 'event_pending', 'timeout_next', 'timeout_process', 'event_del_nolock_', 'event_active_nolock_', 'event_queue_insert_timeout', 'event_queue_remove_timeout', 'event_persist_closure', 'gettime']
+BOUNDS = '(a) ANY valid min-heap of n<=6 (thorough 7) elements, n enumerated, deadlines: tv_sec any 64-bit value, tv_usec<10^6; one operation with solver-chosen victim/new deadline.  (b)(d) one event; now, timeout, previous deadline, interval: tv_sec<2^31, tv_usec<10^6, all solver-chosen.  (c) ANY valid heap of n<=3 (thorough 4) pending one-shot timers of one priority, solver-chosen deadlines and now.'
+OUT = 'common-timeout queues (e) and multi-operation histories through event_base_loop (f) are not encoded yet; heaps > 7; timers that are also I/O events in the expiry step; several priorities in the expiry step; evutil_time.c (the clock is the virtual clock vp_now); tv_usec >= 10^6 inputs; heap growth (realloc) - capacity is pre-reserved'
+TEXT = "Inductive step obligations on the real code: (a) every min-heap operation preserves heap order, index consistency and membership and keeps the minimum on top, from ANY valid heap; (b) event_add computes deadline == now+timeout (normalised) / the absolute time, the timer is pending, event_pending reports it, the loop's wait is max(0,deadline-now); (c) from ANY valid heap and any clock value timeout_process activates exactly the timers with deadline<=now (never early, never late), each once, in non-decreasing deadline order, leaves the rest pending in a valid heap, and timeout_next returns exactly max(0, earliest-now); (d) event_persist_closure re-arms at previous deadline+interval, or now+interval when that is past or the activation was not a timeout, exactly once.  Induction over loop iterations gives the unbounded claim for heap timers within the value bounds."
+NOTE = "Typed distinct event objects (not arrays, not realloc'ed memory) keep heap-slot pointers a small case split. The common-timeout branches are cut with assert(false);assume(false) in get_common_timeout_list: the solver proves they are never entered by non-common timers. Reference arithmetic on timevals uses carry arithmetic (no 64-bit multiplications)."
+ASSUMPTIONS = ['heap representation invariant: p[i]->min_heap_idx==i and !(parent>child) (the one event_base_assert_ok_nolock_ checks)', 'expiry pre-state: timers are EVLIST_INIT|EVLIST_TIMEOUT one-shot non-I/O events of priority 0, event_count==n', 'monotonic clock = vp_now (evutil_gettime_monotonic_ stub), gettimeofday = constant', 'constructed event_base (env/evbase.h)', 'allocation does not fail']
 DESIGN_REF = "DESIGN.md §5 C01"
 _T = int(os.environ.get("VP_PROBE_T", "0"))
 
